@@ -12,7 +12,8 @@ RULE = ("put: 0-5 writable + 0-2 read-only fake services (disk/proxy/mixed), wan
         "which in-flight upload answers next ('slow response' = released late), entry points "
         "putReplicas/PutHB/PutB/PutHR (right and wrong hash, wrong and oversize length); plus an exhaustive "
         "enumeration of canonical per-service answer sequences for <=2 (quick) / <=3 (thorough) services; "
-        "upl: single HTTP exchanges through uploadToKeepServer; load: service lists (JSON, as from discovery) through "
+        "seq: 2-3 puts in a row on ONE client (same services, independent scripts; half of the later puts are "
+        "accepted by every writable service); upl: single HTTP exchanges through uploadToKeepServer; load: service lists (JSON, as from discovery) through "
         "LoadKeepServicesFromJSON/loadKeepServers, also for every put case (read-only services of either type). "
         "A put case is non-trivial when at least one answer was processed; distinct = distinct case line")
 ASSUMPTIONS = [
@@ -196,17 +197,50 @@ def gen_random_put(rng, big_ok=False):
     elif r < 0.45:
         h = "%032x" % rng.getrandbits(128)
     svcs = _services(rng, nw, nro, kind)
-    p_ok = rng.choice([0.2, 0.5, 0.5, 0.8])
-    honest = entry != "raw" or rng.random() < 0.1
     url_hash = md5 if entry == "putb" else h
+    _fill_outs(rng, svcs, retries, url_hash, len(data), odd, entry != "raw" or rng.random() < 0.1)
+    return fmt_put(entry, want, retries, h, data, svcs, _picks(rng))
+
+
+def _fill_outs(rng, svcs, retries, url_hash, size, odd, honest):
+    p_ok = rng.choice([0.2, 0.5, 0.5, 0.8])
     for i, s in enumerate(svcs):
+        s["outs"] = []
         n_out = retries + 1 if rng.random() < 0.9 else rng.randint(0, retries + 1)
         for k in range(n_out):
             if honest and rng.random() < 0.6:
                 s["outs"].append("k")
             else:
-                s["outs"].append(_rand_out(rng, url_hash, len(data), f"{i}.{k}", odd, p_ok))
-    return fmt_put(entry, want, retries, h, data, svcs, _picks(rng))
+                s["outs"].append(_rand_out(rng, url_hash, size, f"{i}.{k}", odd, p_ok))
+
+
+def gen_seq(rng):
+    """2-3 puts on ONE client: same services, independent scripts/want/retries/data/picks. What a
+    service answered in an earlier put (503, errors, ...) must not matter for a later one."""
+    while True:
+        first = gen_random_put(rng)
+        if not first.startswith("put puthr"):
+            break
+    c = parse_put(first)
+    parts = [first[4:]]
+    for _ in range(rng.choice([1, 1, 2])):
+        svcs = [dict(s, outs=[]) for s in c["svcs"]]
+        want = rng.choice([1, 2, 2, 3])
+        retries = rng.choice([0, 1, 2])
+        data = bytes(rng.getrandbits(8) for _ in range(rng.choice([0, 1, 3, 17])))
+        md5 = hashlib.md5(data).hexdigest()
+        entry = rng.choice(["raw", "raw", "puthb", "putb"])
+        h = "-" if entry == "putb" else md5
+        r = rng.random()
+        if r < 0.5:
+            # the later put is one that every writable service accepts
+            for i, s in enumerate(svcs):
+                s["outs"] = ["k" if rng.random() < 0.5 else _ok_tok(rng, md5, len(data), f"{i}", False)
+                             for _ in range(retries + 1)]
+        else:
+            _fill_outs(rng, svcs, retries, md5, len(data), False, rng.random() < 0.5)
+        parts.append(fmt_put(entry, want, retries, h, data, svcs, _picks(rng))[4:])
+    return f"seq {len(parts)} " + " ".join(parts)
 
 
 def _behaviours(retries):
@@ -307,11 +341,13 @@ def generate(rng, tier):
     if tier == "quick":
         cases += gen_exhaustive(rng, 2, 1)
         cases += [gen_random_put(rng, i % 750 == 7) for i in range(3000)]
+        cases += [gen_seq(rng) for _ in range(600)]
         cases += [gen_upl(rng) for _ in range(600)]
         cases += [gen_load(rng) for _ in range(300)]
     else:
         cases += gen_exhaustive(rng, 3, 2, sample=0.25)
         cases += [gen_random_put(rng, i % 3300 == 7) for i in range(40000)]
+        cases += [gen_seq(rng) for _ in range(12000)]
         cases += [gen_upl(rng) for _ in range(6000)]
         cases += [gen_load(rng) for _ in range(3000)]
     return cases
@@ -448,6 +484,26 @@ def oracle_put(case, impl):
     return None
 
 
+def seq_puts(case):
+    f = case.split(" ")
+    k = int(f[1])
+    return ["put " + " ".join(f[2 + 7 * i:2 + 7 * i + 7]) for i in range(k)]
+
+
+def oracle_seq(case, impl):
+    """every Put of the sequence must satisfy the property on its own: what the services answered in
+    earlier Puts on the same client does not enter the property"""
+    puts = seq_puts(case)
+    outs = impl.split(" / ")
+    if len(outs) != len(puts):
+        return "Put sequence did not complete / driver could not observe: " + impl[:200]
+    for i, (p, o) in enumerate(zip(puts, outs)):
+        why = oracle_put(p, o)
+        if why:
+            return f"Put #{i + 1} of {len(puts)} on the same client: {why}"
+    return None
+
+
 def oracle_upl(case, impl):
     t = parse_tok(case.split(" ")[1])
     f = impl.split(" ")
@@ -495,6 +551,8 @@ def oracle(case, impl):
         return "driver could not observe a result: " + impl[:200]
     if case.startswith("put "):
         return oracle_put(case, impl)
+    if case.startswith("seq "):
+        return oracle_seq(case, impl)
     if case.startswith("upl "):
         return oracle_upl(case, impl)
     if case.startswith("load "):
@@ -503,6 +561,8 @@ def oracle(case, impl):
 
 
 def nontrivial_key(case, impl):
+    if case.startswith("seq "):
+        return case if " / " in impl else None
     if case.startswith("put "):
         f = impl.split(" ")
         if len(f) == 5 and not f[4].startswith("-|"):
@@ -519,6 +579,10 @@ def describe(cases, impl):
     for c, r in zip(cases, impl):
         op = c.split(" ", 1)[0]
         inc(d["ops"], op)
+        if op == "seq":
+            d["puts_inside_seq"] = d.get("puts_inside_seq", 0) + int(c.split(" ")[1])
+            if r and "503" in r.split(" / ")[0]:
+                d["seq_with_503_in_first_put"] = d.get("seq_with_503_in_first_put", 0) + 1
         if op != "put":
             continue
         p = parse_put(c)
@@ -547,6 +611,8 @@ def describe(cases, impl):
 
 
 def neighbours(case, rng):
+    if case.startswith("seq "):
+        return [gen_seq(rng) for _ in range(10)]
     if not case.startswith("put "):
         return [gen_upl(rng) if case.startswith("upl") else gen_load(rng) for _ in range(5)]
     c = parse_put(case)
